@@ -386,7 +386,7 @@ def execute(prop, tier, seed):
             from . import cp1252
             if info["cp1252"]["dec"] != cp1252.DEC:
                 run.problem("cp1252 decode table differs between the engine host and the repository interpreter")
-        for (kind, name, payload, req), nat in zip(items, res):
+        for pos, ((kind, name, payload, req), nat) in enumerate(zip(items, res)):
             run.native_runs += 1
             if kind == "violation":
                 v = payload
@@ -426,6 +426,9 @@ def execute(prop, tier, seed):
                     if k is not None:
                         run.known_hits.append((k, name, v))
                     else:
+                        # such a failure may depend on what the same process executed before (module-level state):
+                        # the replay file carries the preceding runs of the batch
+                        req = dict(req, history=[it[3] for it in items[max(0, pos - 400):pos]])
                         run.violations.append((name, v, req, nat))
                 else:
                     run.problem(f"SELF-CHECK-MISMATCH job {name}: inputs={json.dumps(mdl)[:300]} native={nat.get('status')} "
@@ -600,7 +603,7 @@ def write_replay(prop, name, v, req, tier):
     os.makedirs(os.path.join(VERIF, "replays"), exist_ok=True)
     doc = {"property": prop.ID, "harness": prop.HARNESS, "mode": getattr(prop, "MODE", "src"), "job": name, "fn": req["fn"],
            "args": req["args"], "inputs": v["inputs"], "expected": {"status": v["kind"], "label": v["label"]}, "tier": tier,
-           "tree": req.get("tree")}
+           "tree": req.get("tree"), "history": req.get("history", []), "found_by": v.get("found_by", "solver model")}
     h = hashlib.sha256(json.dumps(doc, sort_keys=True).encode()).hexdigest()[:12]
     path = os.path.join(VERIF, "replays", f"{prop.ID}-{h}.json")
     with open(path, "w") as f:
@@ -628,11 +631,13 @@ def replay(prop, path):
         if not ok:
             print(f"generator failed: {msg}")
             return 2
-    res, info, err = native_batch(root, os.path.join(VERIF, doc["harness"]), [{"fn": doc["fn"], "args": doc["args"], "inputs": doc["inputs"]}])
+    runs = [{"fn": h["fn"], "args": h["args"], "inputs": h["inputs"]} for h in doc.get("history", [])]
+    runs.append({"fn": doc["fn"], "args": doc["args"], "inputs": doc["inputs"]})
+    res, info, err = native_batch(root, os.path.join(VERIF, doc["harness"]), runs)
     if res is None:
         print("replay failed:", err)
         return 2
-    nat = res[0]
+    nat = res[-1]
     print(json.dumps({"expected": doc["expected"], "native": {k: v for k, v in nat.items() if k != "observations"}}))
     same = nat.get("status") == doc["expected"]["status"] and nat.get("label") == doc["expected"]["label"]
     print("REPRODUCED" if same else "NOT-REPRODUCED")
